@@ -77,6 +77,14 @@ class Closure(object):
 def _mine(exc, node):
     lab = getattr(exc, "label", None)
     return lab is None or lab == getattr(node, "label", None)
+def closure_result_kind(c):
+    """'Some' / 'Ok' when the closure body visibly ends in Some(..) / Ok(..) (decides Option vs Result for an empty try_fold), else None"""
+    body = getattr(c, "body", None)
+    while isinstance(body, tuple) and body and body[0] == "block":
+        body = body[2]
+    if isinstance(body, tuple) and body and body[0] == "call" and body[1][0] == "path" and body[1][1][-1] in ("Some", "Ok"):
+        return body[1][1][-1]
+    return None
 class RustPanic(Exception):
     def __init__(self, file, line, what):
         self.file, self.line, self.what = file, line, what
@@ -1031,6 +1039,29 @@ class Interp(object):
             for x in list(v):
                 acc = self.call_closure(args[1], [acc, x], line)
             return acc
+        if name == "try_fold":
+            acc, last = args[0], None
+            for x in list(v):
+                r = self.call_closure(args[1], [acc, x], line)
+                if not isinstance(r, ResultV):
+                    self.unsupported(line, "try_fold closure did not return Option / Result")
+                if r.kind in ("Err", "None"):
+                    return r
+                acc, last = r.value, r.kind
+            if last is None:
+                last = closure_result_kind(args[1])
+            if last is None:
+                self.unsupported(line, "try_fold over an empty iterator: Option / Result not determined by the source text")
+            return ResultV(last, acc)
+        if name == "filter_map":
+            out = []
+            for x in list(v):
+                r = self.call_closure(args[0], [x], line)
+                if isinstance(r, ResultV) and r.kind == "Some":
+                    out.append(r.value)
+                elif not (isinstance(r, ResultV) and r.kind == "None"):
+                    self.unsupported(line, "filter_map closure did not return an Option")
+            return RList(out)
         if name in ("sum", "product"):
             acc = F(0) if name == "sum" else F(1)
             for x in v:
